@@ -3,6 +3,8 @@ Oracle ops for the `ptr` family (C16): jsontext.Pointer methods and appendStackP
 
   ptr valid h | contains h1 h2 | parent h | last h | append h tok | tokens h | esc h | unesc h
   ptr sp w t1 t2 …    model of appendStackPointer(nil, w) after the token history   (w ∈ -1 0 1)
+  ptr spm w t1 t2 …   the same on the packed state machine (Model/State.lean) + names stack
+  ptr sidx t1 t2 …    StackDepth and StackIndex(0..depth) read off the packed machine: `d k0:n0 … kd:nd`
   ptr spec w t1 t2 …  render (pointerOf w history)                                   (the declarative side)
       tokens: `{` `}` `[` `]` `l` (literal/number) `s<hex>` (string; `s-` = empty)
 Answers: hex byte strings (`-` = empty), `0`/`1`, token lists as `n tok1 … tokn`, `E` = rejected history / panic.
@@ -65,6 +67,23 @@ def handle (op : String) (args : List String) : String :=
         | none => "E"
       | none => "E"
     | _, _ => badArgs
+  | "spm", w :: hist => match parseWhere w, parseHist hist with
+    | some w, some hist => match MState.run 10000 {} hist with
+      | .ok s => match s.appendStackPointer [] w with
+        | some b => hexOfBytes b
+        | none => "E"
+      | .error _ => "E"
+    | _, _ => badArgs
+  | "sidx", hist => match parseHist hist with
+    | some hist => match MState.run 10000 {} hist with
+      | .ok s =>
+        let d := stackDepth s.m
+        let cells := (List.range (d + 1)).map fun i => match stackIndex s.m i with
+          | some (k, n) => s!"{k.toNat}:{n}"
+          | none => "E"
+        " ".intercalate (toString d :: cells)
+      | .error _ => "E"
+    | none => badArgs
   | "spec", w :: hist => match parseWhere w, parseHist hist with
     | some w, some hist => match Spec.Pointer.pointerOf w hist with
       | some p => hexOfBytes (Spec.Pointer.renderPath p)
